@@ -22,7 +22,17 @@ def std_case(rnd, seed, *, kinds=("gauss", "bimodal", "expedge", "corr"), scenar
         cfg["reflective"] = [0]
     case = dict(seed=seed, target=tgt, cfg=cfg, n_total=rnd.choice(list(n_totals)), scenario=rnd.choice(list(scenarios)))
     if cfg["n_particles"] >= 500:
-        case["n_total"] = 2 * cfg["n_particles"]
+        # large batches are there for block-size / threshold effects, not for long or high-dimensional runs: keep them cheap (two thorough-tier cases with
+        # 8 dimensions, 7 steps and a tight volume-variation target exceeded the per-case timeout under load)
+        if tgt["d"] >= 5:
+            cfg["n_particles"] = 64 if not cfg.get("clustering") else 16 * tgt["d"]
+        else:
+            case["n_total"] = 2 * cfg["n_particles"]
+            cfg.pop("n_steps", None)
+            cfg.pop("n_max_steps", None)
+            cfg["ess_ratio"] = min(cfg.get("ess_ratio", 2.0), 2.0)
+            if cfg.get("volume_variation") is not None:
+                cfg["volume_variation"] = max(cfg["volume_variation"], 0.25)
     case.update(gen.gen_eval(rnd, blobs=bool(nb), modes=evals))
     if rnd.random() < 0.03 and not nb and "vector" in evals:
         # batches larger than any internal block size a vectorised path might use (not a multiple of a power of two)
